@@ -191,26 +191,28 @@ class Connection:
         self.stream.reset_seq()
 
     async def handle_change_user(self, data: bytes) -> None:
-        com_change_user = packets.parse_com_change_user(
-            capabilities=self.capabilities,
-            client_charset=self.client_charset,
-            data=data,
-        )
-
-        self.session.database = com_change_user.database
-        self.session.variables.set(
-            "external_user", com_change_user.username, force=True
-        )
-        if com_change_user.client_charset:
-            self.session.variables.set(
-                "character_set_client", com_change_user.client_charset.name
-            )
-        if com_change_user.connect_attrs:
-            self.client_connect_attrs = com_change_user.connect_attrs
-
         # Re-authenticating is not a statement: KILL QUERY must not abort it half-way
         self._executing = False
         try:
+            com_change_user = packets.parse_com_change_user(
+                capabilities=self.capabilities,
+                client_charset=self.client_charset,
+                data=data,
+            )
+
+            # From here on the session carries the requested identity: whatever fails
+            # before the exchange has succeeded must not leave the connection usable
+            self.session.database = com_change_user.database
+            self.session.variables.set(
+                "external_user", com_change_user.username, force=True
+            )
+            if com_change_user.client_charset:
+                self.session.variables.set(
+                    "character_set_client", com_change_user.client_charset.name
+                )
+            if com_change_user.connect_attrs:
+                self.client_connect_attrs = com_change_user.connect_attrs
+
             await self.authenticate(
                 username=com_change_user.username,
                 auth_response=com_change_user.auth_response,
